@@ -650,7 +650,7 @@ func c01Gen(rng *rand.Rand, tier string, w *bufio.Writer) {
 	// ---- random histories
 	cases, maxOps := 190, 60
 	if tier == "thorough" {
-		cases, maxOps = 4000, 400
+		cases, maxOps = 1500, 200
 	}
 	for c := 0; c < cases; c++ {
 		newCase()
